@@ -1,5 +1,5 @@
 (* C10 — Failures in user code stay isolated (statements only). *)
-From EAS Require Import Base Sched SchedInv SchedApi SchedProps SchedLog SchedIso.
+From EAS Require Import Base Sched SchedInv SchedApi SchedProps SchedLog SchedIso SchedFuel.
 
 (* The invariant - hence the armed timer and the schedule of every job - holds in every reachable state
    for EVERY environment: whichever callables, callbacks and triggers raise at whichever invocation. *)
@@ -31,3 +31,19 @@ Theorem C10_step_isolated :
   forall E f hs s o, pmap (step E f hs s o) = step (quiet_env E) f hs (er s) o.
 Proof. exact iso_step. Qed.
 Print Assumptions C10_step_isolated.
+
+
+(* F5 (refutation of "a failing trigger is isolated like a failing callable"): a trigger that raises inside
+   execute() leaves the job queued with its stale next run; the job is due again and
+   _set_timer -> run_jobs -> add_job -> _set_timer never ends.  In the model: from a REACHABLE state satisfying the
+   invariant, with the timer armed, run_jobs exhausts EVERY fuel; as a history: for every fuel an outcome is
+   NoFuel.  So the hypothesis "triggers answer" of the fuel theorems (C01) cannot be dropped. *)
+Theorem C10_F5_refuted :
+  exists E s, Inv s /\ timer s <> None /\ forall f, run_jobs E f s = None.
+Proof. exact F5_refuted. Qed.
+Print Assumptions C10_F5_refuted.
+
+Theorem C10_F5_refuted_run :
+  exists E ops, forall fuel, In NoFuel (snd (run E fuel false (init 0 true) ops)).
+Proof. exact F5_refuted_run. Qed.
+Print Assumptions C10_F5_refuted_run.
